@@ -14,7 +14,7 @@ func init() {
 	register(&PropertyDef{
 		ID:          "C02",
 		Title:       "Receiver ratchet tolerates any arrival order and duplication of messages",
-		Explanation: "Decides the structural clauses of the receiver ratchet from the SSA of pkg/secretstore: (D1) the stored chain key only moves forward (abstract evaluation of the updater over {new<stored,=,>}); (D2) registration is once-only: every write of registration (precomputed window, chain key) is dominated by the 'no chain key stored' outcome of the lookup, and the 'already registered' outcome returns success without any write; (D3) the window created at registration: the precompute loop, evaluated abstractly with window sizes 1..3, derives exactly window-size keys and returns the chain key at counter c+window, the window is persisted before returning, and the chain key stored by registration is that returned value; (D4) slide by one per newly opened message: the post-decryption step writes exactly one next key outside any loop, for the same counter value (stored+1) that it puts in the chain key it returns; (D5) re-reads keep working: key saved by CID before the precomputed key is deleted, the deleted key is the one at the opened header's counter, and the by-CID lookup is tried first with the precomputed lookup only on its miss side, keyed by the header's device and counter; (D6) the 'not registered yet' test that guards registration's writes is made under the same message lock as the writes (no test-then-lock-then-write). Not decided: the window inequality for all permutations with repetition (loop arithmetic over runtime history), one-wayness of the KDF.",
+		Explanation: "Decides the structural clauses of the receiver ratchet from the SSA of pkg/secretstore: (D1) the stored chain key only moves forward (abstract evaluation of the updater over {new<stored,=,>}); (D2) registration is once-only: every write of registration (precomputed window, chain key) is dominated by the 'no chain key stored' outcome of the lookup, and the 'already registered' outcome returns success without any write; (D3) the window created at registration: the precompute loop, evaluated abstractly with window sizes 1..3, derives exactly window-size keys and returns the chain key at counter c+window, the window is persisted before returning, and the chain key stored by registration is that returned value; (D4) slide by one per newly opened message: the post-decryption step writes exactly one next key outside any loop, for the same counter value (stored+1) that it puts in the chain key it returns; (D5) re-reads keep working: key saved by CID before the precomputed key is deleted, the deleted key is the one at the opened header's counter, and the by-CID lookup is tried first with the precomputed lookup only on its miss side, keyed by the header's device and counter; (D6) the 'not registered yet' test that guards registration's writes is made under the same message lock as the writes (no test-then-lock-then-write). In D4/D5 the steps of the post-decryption function are its call sites or, when it runs a local table of closures by one forward range loop (`for _, step := range []func() error{...}`, statically known elements; recognised by c09Tables, which also adds the calls to the call graph), the elements of that table in table order; a table run in any other way counts as unordered and possibly repeated; values handed from one closure to the next through a captured variable, and parameters of the enclosing function read through a captured variable that is never reassigned, are followed. Not decided: the window inequality for all permutations with repetition (loop arithmetic over runtime history), one-wayness of the KDF.",
 		Trusted:     []string{"go/ssa (x/tools v0.29.0)", "HKDF one-wayness", "effects identified by the namespace constants of pkg/secretstore"},
 		Assumptions: []string{"the evaluator's window sizes 1..3 are representative of the loop's counting form (the loop body is the same for every size)"},
 		Floors:      map[string]int{"D1": 4, "D2": 3, "D3": 7, "D4": 2, "D5": 4, "D6": 2},
@@ -24,7 +24,7 @@ func init() {
 			{From: "C08", Rules: []string{"D4", "D5"}, Why: "the property holds 'provided a message that fails is retried after others have been opened'; in the message store (an anchor of this property) that retry is the re-injection of the sender's whole parked queue after a registration and after every successful open"},
 			{From: "C15", Rules: []string{"D6"}, Why: "that re-injection relies on the per-device queue handing over every parked item, lowest counter first"},
 		},
-		Run:         runC02,
+		Run: runC02,
 	})
 }
 
@@ -251,8 +251,9 @@ func runC02(c *Ctx) {
 	openScope := w.reachableFuncs([]*ssa.Function{open}, 6)
 	var post *ssa.Function
 	for _, fn := range sortedFuncs(openScope) {
-		a, b := ei.sitesWith(fn, putByCID), ei.sitesWith(fn, delPre)
-		if len(a) > 0 && len(b) > 0 && a[0].Instr != b[0].Instr {
+		// two distinct steps (two call sites, or two elements of a table of steps run by a loop)
+		a, b := c02Steps(w, fn, putByCID), c02Steps(w, fn, delPre)
+		if len(a) > 0 && len(b) > 0 && !(a[0].Instr == b[0].Instr && a[0].Seq == b[0].Seq) {
 			post = fn
 		}
 	}
@@ -260,11 +261,19 @@ func runC02(c *Ctx) {
 		c.undecided("D4", "post-decryption", open.Pos(), "no function on the open path saves the key by CID and deletes the precomputed key")
 	} else {
 		c.analysed(post)
-		slides := ei.sitesWith(post, putPre)
-		okOne := len(slides) == 1 && !inLoop(slides[0].Instr.(ssa.Instruction))
-		c.check(okOne, "D4", fnName(post)+"+one-slide", post.Pos(), "exactly one next-key write per newly opened message", fmt.Sprintf("%d next-key writes per opened message (or inside a loop): the window does not slide by exactly one", len(slides)))
+		slides := c02Steps(w, post, putPre)
+		okOne := len(slides) == 1 && !c02StepRepeats(slides[0])
+		slideMsg := fmt.Sprintf("%d next-key writes per opened message (or inside a loop): the window does not slide by exactly one", len(slides))
+		if len(slides) == 1 && slides[0].Table != nil {
+			slideMsg = "the next-key write is a step of a table of closures that is not run exactly once, first element to last, by a forward range loop entered once: that the window slides by exactly one per opened message is not established"
+		}
+		c.check(okOne, "D4", fnName(post)+"+one-slide", post.Pos(), "exactly one next-key write per newly opened message", slideMsg)
 		if len(slides) == 1 && slides[0].Callee != nil {
+			// the function that slides (through the closure that wraps the step, if any)
 			sl := slides[0].Callee
+			if in := c02StepCalls(ei, slides[0], putPre); len(in) == 1 && in[0].Callee != nil {
+				sl = in[0].Callee
+			}
 			c.analysed(sl)
 			// all uint64 values derived from the stored counter that are stored into struct
 			// fields in the slide function are the same value, and it is stored+1
@@ -294,13 +303,19 @@ func runC02(c *Ctx) {
 			// result goes to the monotone updater for foreign devices
 			ups := chainKeyUpdaters(w)
 			fed := false
-			for _, s := range ei.sitesWith(post, putChain) {
-				for _, u := range ups {
-					if s.Callee == u {
+			for _, ps := range c02Steps(w, post, putChain) {
+				for _, s := range c02StepCalls(ei, ps, putChain) {
+					for _, u := range ups {
+						if s.Callee != u {
+							continue
+						}
 						for _, a := range s.Instr.Common().Args {
-							if ex, ok := stripConv(a).(*ssa.Extract); ok {
-								if call, ok := ex.Tuple.(*ssa.Call); ok && staticCallee(call.Common()) == sl {
-									fed = true
+							// the argument, or any value the captured variable it is read from can hold
+							for _, v := range c02PossibleValues(a) {
+								if ex, ok := stripConv(v).(*ssa.Extract); ok {
+									if call, ok := ex.Tuple.(*ssa.Call); ok && staticCallee(call.Common()) == sl {
+										fed = true
+									}
 								}
 							}
 						}
@@ -317,26 +332,44 @@ func runC02(c *Ctx) {
 		if n == 0 {
 			c.fail("D5", fnName(post)+"+byCID<delete", post.Pos(), "save-by-CID and delete are no longer distinct ordered writes")
 		}
-		for _, s := range ei.sitesWith(post, delPre) {
+		for _, ps := range c02Steps(w, post, delPre) {
 			okArg := false
-			for _, a := range s.Instr.Common().Args {
-				if bt, ok := a.Type().Underlying().(*types.Basic); ok && bt.Kind() == types.Uint64 {
-					rs := rootsOf(provCfg{W: w}, a)
-					for _, r := range paramRoots(rs, post) {
-						if strings.HasSuffix(r, ".Counter") {
-							for i, p := range post.Params {
-								if strings.HasPrefix(r, fmt.Sprintf("p%d.", i)) && isNamed(p.Type(), pkgTypes, "MessageHeaders") {
-									okArg = true
+			calls := c02StepCalls(ei, ps, delPre)
+			for _, s := range calls {
+				okThis := false
+				for _, a := range s.Instr.Common().Args {
+					if bt, ok := a.Type().Underlying().(*types.Basic); ok && bt.Kind() == types.Uint64 {
+						if s.Instr.Parent() == post {
+							rs := rootsOf(provCfg{W: w}, a)
+							for _, r := range paramRoots(rs, post) {
+								if strings.HasSuffix(r, ".Counter") {
+									for i, p := range post.Params {
+										if strings.HasPrefix(r, fmt.Sprintf("p%d.", i)) && isNamed(p.Type(), pkgTypes, "MessageHeaders") {
+											okThis = true
+										}
+									}
 								}
 							}
 						}
-					}
-					if _, isBin := stripConv(a).(*ssa.BinOp); isBin {
-						okArg = false
+						// the call sits in a closure of the step table: the counter is read through the
+						// captured (never reassigned) headers parameter of the enclosing function
+						if base, path := c02PathOf(a); path == ".Counter" {
+							if p, isPar := base.(*ssa.Parameter); isPar && p.Parent() == post && isNamed(p.Type(), pkgTypes, "MessageHeaders") {
+								okThis = true
+							}
+						}
+						if _, isBin := stripConv(a).(*ssa.BinOp); isBin {
+							okThis = false
+						}
 					}
 				}
+				if !okThis {
+					okArg = false
+					break
+				}
+				okArg = true
 			}
-			c.check(okArg, "D5", fnName(post)+"+delete-counter", posOf(s.Instr), "the deleted precomputed key is the one at the opened header's counter", "the precomputed key deleted after opening is not the one at the opened header's counter")
+			c.check(okArg, "D5", fnName(post)+"+delete-counter", posOf(ps.Instr), "the deleted precomputed key is the one at the opened header's counter", "the precomputed key deleted after opening is not the one at the opened header's counter")
 		}
 	}
 	nLookup := 0
@@ -374,6 +407,228 @@ func runC02(c *Ctx) {
 	if nLookup == 0 {
 		c.undecided("D5", "lookup-order", open.Pos(), "no function on the open path performs both the by-CID and the precomputed lookup")
 	}
+}
+
+// ---------- steps run from a local table of closures ----------
+
+// c02Steps: the steps of fn that may perform e: its effect sites, a call through a local table
+// of closures (c09Tables) being expanded into one step per element of the table (c10VirtualSites:
+// the loop over the table is the sequence of its elements).
+func c02Steps(w *World, fn *ssa.Function, e EffPred) []c10VSite {
+	var out []c10VSite
+	for _, v := range c10VirtualSites(w, fn) {
+		if v.has(e) {
+			out = append(out, v)
+		}
+	}
+	return out
+}
+
+// c02StepRepeats: the step can run more than once per execution of its function: an ordinary
+// site inside a loop; an element of a table that is not run by a forward range loop (each
+// element once, in order) or whose loop can be entered again (it sits in an outer loop).
+func c02StepRepeats(v c10VSite) bool {
+	if v.Table == nil {
+		return inLoop(v.Instr.(ssa.Instruction))
+	}
+	if !v.Table.Ordered {
+		return true
+	}
+	// forward range: the call is t[idx](), idx = phi[-1 from outside, idx] + 1
+	ld, _ := v.Instr.Common().Value.(*ssa.UnOp)
+	if ld == nil {
+		return true
+	}
+	ia, _ := ld.X.(*ssa.IndexAddr)
+	if ia == nil {
+		return true
+	}
+	add, _ := ia.Index.(*ssa.BinOp)
+	if add == nil {
+		return true
+	}
+	phi, _ := add.X.(*ssa.Phi)
+	if phi == nil {
+		return true
+	}
+	hdr := phi.Block()
+	fromHdr := map[*ssa.BasicBlock]bool{}
+	for _, s := range hdr.Succs {
+		for b := range reach(s, nil) {
+			fromHdr[b] = true
+		}
+	}
+	for i, e := range phi.Edges {
+		if k, isC := constInt(e); isC && k == -1 && i < len(hdr.Preds) && !fromHdr[hdr.Preds[i]] {
+			return false // entered once, from before the loop
+		}
+	}
+	return true
+}
+
+// c02StepCalls: the call instruction(s) behind a step of the post-decryption function that
+// perform e: the site itself, or - when the step is an element of a table of closures, i.e. a
+// closure wrapping the step - the matching call(s) inside that closure.
+func c02StepCalls(ei *effectInfo, s c10VSite, e EffPred) []effectSite {
+	if s.Table == nil || s.Callee == nil {
+		return []effectSite{s.effectSite}
+	}
+	return ei.sitesWith(s.Callee, e)
+}
+
+// c02CellRoot: the local variable behind addr: its Alloc, also when addr is the free variable
+// through which a closure (of a closure ...) sees it.
+func c02CellRoot(addr ssa.Value) *ssa.Alloc {
+	for d := 0; d < 4; d++ {
+		switch x := addr.(type) {
+		case *ssa.Alloc:
+			return x
+		case *ssa.FreeVar:
+			fn := x.Parent()
+			par := fn.Parent()
+			idx := -1
+			for i, fv := range fn.FreeVars {
+				if fv == x {
+					idx = i
+				}
+			}
+			if par == nil || idx < 0 {
+				return nil
+			}
+			var bound ssa.Value
+			for _, b := range par.Blocks {
+				for _, in := range b.Instrs {
+					if mc, ok := in.(*ssa.MakeClosure); ok && mc.Fn == ssa.Value(fn) && idx < len(mc.Bindings) {
+						if bound != nil && bound != mc.Bindings[idx] {
+							return nil
+						}
+						bound = mc.Bindings[idx]
+					}
+				}
+			}
+			if bound == nil {
+				return nil
+			}
+			addr = bound
+		default:
+			return nil
+		}
+	}
+	return nil
+}
+
+// c02CellStores: every value stored into the variable, by its own function or by a closure
+// that captures it; ok is false when its address is used in any other way (then other writes
+// cannot be excluded).
+func c02CellStores(al *ssa.Alloc) (vals []ssa.Value, ok bool) {
+	var visit func(addr ssa.Value, d int) bool
+	visit = func(addr ssa.Value, d int) bool {
+		if addr.Referrers() == nil || d > 4 {
+			return false
+		}
+		for _, r := range *addr.Referrers() {
+			switch u := r.(type) {
+			case *ssa.Store:
+				if u.Addr != addr {
+					return false
+				}
+				vals = append(vals, u.Val)
+			case *ssa.UnOp, *ssa.DebugRef:
+			case *ssa.MakeClosure:
+				f, isF := u.Fn.(*ssa.Function)
+				if !isF {
+					return false
+				}
+				for i, b := range u.Bindings {
+					if b == addr && (i >= len(f.FreeVars) || !visit(f.FreeVars[i], d+1)) {
+						return false
+					}
+				}
+			default:
+				return false
+			}
+		}
+		return true
+	}
+	ok = visit(al, 0)
+	return
+}
+
+// c02PossibleValues: v, and when v is read from a local variable (possibly one captured by the
+// closure that reads it and written by a sibling closure) the values that variable can hold.
+func c02PossibleValues(v ssa.Value) []ssa.Value {
+	out := []ssa.Value{v}
+	seen := map[ssa.Value]bool{v: true}
+	for i := 0; i < len(out) && len(out) < 32; i++ {
+		var next []ssa.Value
+		switch x := stripConv(out[i]).(type) {
+		case *ssa.Phi:
+			next = x.Edges
+		case *ssa.UnOp:
+			if x.Op == token.MUL {
+				if al := c02CellRoot(x.X); al != nil {
+					if vals, ok := c02CellStores(al); ok {
+						next = vals
+					}
+				}
+			}
+		}
+		for _, n := range next {
+			if !seen[n] {
+				seen[n] = true
+				out = append(out, n)
+			}
+		}
+	}
+	return out
+}
+
+// c02PathOf: v as a chain of field reads "base.f.g": returns the base value and the path. A
+// read of a local variable that is assigned exactly once (a parameter captured by a closure is
+// such a variable) is replaced by the value assigned.
+func c02PathOf(v ssa.Value) (ssa.Value, string) {
+	path := ""
+	for d := 0; d < 16; d++ {
+		v = stripConv(v)
+		switch x := v.(type) {
+		case *ssa.UnOp:
+			if x.Op != token.MUL {
+				return v, path
+			}
+			switch x.X.(type) {
+			case *ssa.Alloc, *ssa.FreeVar:
+				al := c02CellRoot(x.X)
+				if al == nil {
+					return v, path
+				}
+				vals, ok := c02CellStores(al)
+				if !ok || len(vals) != 1 {
+					return v, path
+				}
+				v = vals[0]
+			default:
+				v = x.X
+			}
+		case *ssa.FieldAddr:
+			st := x.X.Type().Underlying().(*types.Pointer).Elem().Underlying().(*types.Struct)
+			path = "." + st.Field(x.Field).Name() + path
+			v = x.X
+		case *ssa.Field:
+			st := x.X.Type().Underlying().(*types.Struct)
+			path = "." + st.Field(x.Field).Name() + path
+			v = x.X
+		case *ssa.Call:
+			f := staticCallee(x.Common())
+			if f == nil || !strings.HasPrefix(f.Name(), "Get") || len(x.Common().Args) != 1 || f.Signature.Recv() == nil {
+				return v, path
+			}
+			path = "." + strings.TrimPrefix(f.Name(), "Get") + path
+			v = x.Common().Args[0]
+		default:
+			return v, path
+		}
+	}
+	return v, path
 }
 
 func calleeLabel(s effectSite) string {
